@@ -16,7 +16,7 @@ REPO = os.environ.get("PYVC_REPO", "/repo")
 if REPO != "/repo":
     sys.path.insert(0, REPO)          # scratch copy of the repository shadows the installed package
 
-ENGINE_VERSION = "pyvc-0.3"
+ENGINE_VERSION = "pyvc-0.4"
 
 
 def load_prop(prop):
@@ -207,6 +207,7 @@ def check_property(prop, tier, seed, rebaseline=False, jobs=None):
 
     # ---- deductive part
     total_obl = discharged = 0
+    by_backend = {}
     functions = []
     demoted = []
     undecided = []
@@ -251,11 +252,15 @@ def check_property(prop, tier, seed, rebaseline=False, jobs=None):
                 continue
             total_obl += len(group)
             discharged += sum(1 for o in group if o["verdict"] == "proved")
+            for o in group:
+                if o["verdict"] == "proved":
+                    by_backend[o["backend"]] = by_backend.get(o["backend"], 0) + 1
             all_ids[oid] = group
             entry["obligations"][oid] = {"instances": len(group), "verdict": "proved" if ok else
                                          ("refuted" if any(o["verdict"] == "refuted" for o in group) else "unknown"),
                                          "backend": sorted({o["backend"] for o in group}),
-                                         "seconds": round(sum(o["seconds"] for o in group), 4)}
+                                         "seconds": round(sum(o["seconds"] for o in group), 4),
+                                         "confirm_seconds": round(sum(o.get("confirm_seconds", 0) for o in group), 3)}
             if ok:
                 proved_ids.add(oid)
             else:
@@ -354,7 +359,8 @@ def check_property(prop, tier, seed, rebaseline=False, jobs=None):
                 violations.append((p, {"clause": oid, "nofail": True}))
             else:
                 lines.append(f"UNDECIDED obligation={oid} verdict={'refuted(no replay)' if genuine_sat else 'unknown'} "
-                             f"{'(proved on the unchanged tree)' if regressed else ''} — function demoted to bounded for this run")
+                             f"{'(proved on the unchanged tree)' if regressed else ''} — function demoted to bounded for this run"
+                             + "".join(f" [{o['reason']}]" for o in [o for o in group if o.get("reason") and "z3-5.1.0 says unsat" in o["reason"]][:1]))
 
     for k in known:
         if k["class"] in confirmed and k["class"] not in [c for c, _ in known_printed]:
@@ -389,7 +395,7 @@ def check_property(prop, tier, seed, rebaseline=False, jobs=None):
     cov = {
         "obligations": total_obl, "discharged": discharged,
         "checker_cmd": f"./vcheck {prop} --tier {tier}",
-        "trusted_base": list(getattr(mod, "TRUSTED", [])) + [f"pyvc VC generator ({ENGINE_VERSION}), z3 {z3_version()}, cvc5 1.0.3 (fallback)"],
+        "trusted_base": list(getattr(mod, "TRUSTED", [])) + [f"pyvc VC generator ({ENGINE_VERSION}); z3 {z3_version()} finds each proof, and its `unsat` counts only when cvc5 1.0.3 or z3 4.8.12 also answers `unsat` on the same SMT-LIB text (an obligation is trusted to hold when two independently built solvers agree)"],
         "functions_under_contract": functions,
         "demoted": demoted,
         "bounded": bounded_summ,
@@ -402,6 +408,8 @@ def check_property(prop, tier, seed, rebaseline=False, jobs=None):
         "explanation": getattr(mod, "EXPLANATION", "") + (" | this run: all deductive obligations discharged" if all_discharged else
                                                          f" | this run: {discharged}/{total_obl} obligations discharged, demoted={len(demoted)}"),
         "solver_seconds": round(sum(v["seconds"] for f in functions for v in f["obligations"].values()), 3),
+        "second_solver_seconds": round(sum(v.get("confirm_seconds", 0) for f in functions for v in f["obligations"].values()), 3),
+        "discharged_by_backend": dict(sorted(by_backend.items())),
         "baseline_regressions": sorted(oid for oid in base_proved if oid not in proved_ids),
     }
     # mechanical scan: every assumed contract and assumed lemma the deductive part rests on
